@@ -43,6 +43,8 @@ def run(ctx):
     r157(ctx, core)
     r158(ctx, core)
     from . import callsigs as _cs
+    from . import findings3 as _f3
+    _f3.assembly_flags(ctx, 'R15.9')
     _cs.general_rules(ctx, 'R15', ['core.read_col', 'core.read_row_group_arrays', 'core.read_data_page', 'core.read_rep', 'core.read_def',
                                    'schema._is_list_like', 'schema._is_map_like', 'schema.SchemaHelper'])
 
@@ -63,8 +65,17 @@ def r151(ctx, core):
            'a cursor re-created per page forgets where the previous page\'s last row is', core.loc(f))
     for c in calls:
         st = [s for s in iter_child_stmts(f.body) if isinstance(s, ast.Assign) and any(y is c for y in ast.walk(s))]
-        ok = bool(st) and norm(st[0].targets[0]) == 'row_idx[0]' and isinstance(st[0].value, ast.BinOp) and isinstance(st[0].value.op, ast.Add) \
-            and {norm(st[0].value.left), norm(st[0].value.right)} >= {'1'} and norm(c.args[-1]) == 'row_idx[0]' and len(c.args) == 10
+        # the new cursor is the index the loop filled last plus one - plus nothing for a page that started no row (it
+        # only continued the previous page's row; the loop then returns the cursor it was given)
+        other = None
+        if st and isinstance(st[0].value, ast.BinOp) and isinstance(st[0].value.op, ast.Add):
+            other = st[0].value.right if any(y is c for y in ast.walk(st[0].value.left)) else st[0].value.left
+        plus = other is not None and (norm(other) == '1' or (
+            isinstance(other, ast.IfExp) and norm(other.body) == '1' and norm(other.orelse) == '0' and norm(other.test) in ('(rep == 0).any()', 'not rep.all()')))
+        ok = bool(st) and norm(st[0].targets[0]) == 'row_idx[0]' and plus and norm(c.args[-1]) == 'row_idx[0]' and len(c.args) == 10
+        ctx.ob('R15.1', 'core.read_col:a-page-that-starts-no-row-leaves-the-cursor-where-it-was',
+               isinstance(other, ast.IfExp), '`%s`: the loop returns the cursor it was given when the page holds continuation '
+               'entries only; adding 1 regardless shifts every later row (and writes past the output)' % (norm(st[0])[:90] if st else '?'), core.loc(c))
         ctx.ob('R15.1', 'core.read_col:cursor-is-one-past-the-row-the-previous-page-ended-in', ok,
                '`%s`: the loop returns the index of the last row it filled; the next page must be told 1 + that' % (norm(st[0])[:110] if st else norm(c)[:80]), core.loc(c))
 
@@ -98,7 +109,13 @@ def r153(ctx, core, cen):
     ctx.ob('R15.3', 'cencoding._assemble_objects:signature', params == want, str(params), cen.loc(asm))
     for c in _asm_calls(f):
         got = [norm(a) for a in c.args]
-        ok = len(got) == 10 and got[:9] == ['assign', 'defi', 'rep', 'val', 'dic', 'd', 'null', 'null_val', 'max_defi']
+        # (position 4 carries the values: dictionary indices, or plain values after conversion)
+        ok = len(got) == 10 and got[:3] == ['assign', 'defi', 'rep'] and got[4:9] == ['dic', 'd', 'null', 'null_val', 'max_defi'] \
+            and got[3] in ('val', 'val if d else convert(val, se)')
+        ctx.ob('R15.3', 'core.read_col:plain-values-of-a-repeated-column-are-converted-like-dictionary-labels',
+               got[3] == 'val if d else convert(val, se)' if len(got) == 10 else False,
+               'values handed to the loop: `%s`; the dictionary was converted when its page was read, plain values must be '
+               'converted here or the two kinds of page disagree within one chunk' % (got[3] if len(got) > 3 else '?'), core.loc(c))
         ctx.ob('R15.3', 'core.read_col:arguments-in-the-positions-the-loop-declares', ok, str(got), core.loc(c))
     defs = {norm(s.targets[0]): norm(s.value) for s in iter_child_stmts(f.body) if isinstance(s, ast.Assign) and len(s.targets) == 1}
     ctx.ob('R15.3', 'core.read_col:row-nullability-from-the-outer-field', defs.get('null') == 'not schema_helper.is_required(cmd.path_in_schema[0])',
